@@ -335,6 +335,10 @@ func streamName(e *events.EventStream) string {
 // ---- the driver goroutine --------------------------------------------------------------------------
 
 func (s *Sim) drive() {
+	if s.cfg.Engine == "events" {
+		s.driveEvents()
+		return
+	}
 	if err := s.startCore(); err != nil {
 		// the generated configuration passed validation but the core refused it
 		s.violate("C15", "accepted-config-not-loadable", "register", "registration with a configuration that validation accepts failed: %v", err)
